@@ -174,6 +174,19 @@ def run(tier, seed, replay=None):
     mresp = cm.run_model(mreq, exe_model)
     per = dict(zip(midx, mresp))
     violations, nontrivial = list(situ_viol), set()
+    if not replay:
+        # the generated main impl names every dispatch key of a parameter, also when two keys
+        # differ only in the trait's argument list or in the qualifying segments of its path
+        # (`Dc<1>` / `Dc<2>`, `D` / `legacy::D`, `x::y::Dn` / `y::x::Dn`): the macro's main and
+        # helper impls for such invocations are compared with the Coq model of the generator
+        from . import gen_prog as gp
+        from . import prog_engine as pe
+        tk = [gp.gen_case(rng, 'twokeys', idx=k) for k in range(7 if tier == 'quick' else 42)]
+        n1, v1 = pe.check_mainimpls([c.invocation() for c in tk])
+        n2, v2 = pe.check_genimpls([c.invocation() for c in tk])
+        stats['two_key_main_impls_compared'] = n1
+        stats['two_key_helper_impls_compared'] = n2
+        violations += v1 + v2
     eq_impl, hash_impl, toks_impl, strip_toks = {}, {}, {}, {}
     for i, r in enumerate(resp):
         if reqs[i].startswith('groups\t'):
